@@ -312,6 +312,26 @@ func checkC14(c caseC14) (sig, msg string) {
 				b.frame = append([]byte(nil), a.frame...)
 			}
 			except = ai
+		case "reuse":
+			// a frame of the same type is decoded into a packet value that is
+			// already in the pool (a read loop that reuses one value): whatever
+			// that does to the value itself, every other packet - also one that
+			// was handed a value of it earlier - stays as it is
+			if len(pool) == 0 {
+				continue
+			}
+			ti := op.Slot % len(pool)
+			target := pool[ti]
+			first, _, body, ok := ref.Split(op.Frame)
+			if !ok || int(first>>4) != int(target.snap.Type) || target.snap.Type == model.CONNECT {
+				continue // CONNECT has its own operation (the will it handed out)
+			}
+			if pan := guard.Call(func() { _ = target.p.UnmarshalBinary(append([]byte(nil), body...)) }); pan != nil {
+				return "panic", fmt.Sprintf("step %d: decoding %s into a packet that already holds one panicked: %v", step, hx(op.Frame), pan.Value)
+			}
+			guard.Call(func() { target.snap = api.Observe(target.p) })
+			target.frame, target.model = nil, nil
+			except = ti
 		case "reuse-connect":
 			// decode another CONNECT into a Connect value that is already in
 			// the pool; the will message obtained from it before is a packet
@@ -412,7 +432,7 @@ func TestC14(t *testing.T) {
 		return
 	}
 
-	r.Rapid(t, "histories", vf.N(3000, 1500000), func(t *rapid.T) {
+	r.Rapid(t, "histories", vf.N(9000, 1500000), func(t *rapid.T) {
 		n := rapid.IntRange(2, 24).Draw(t, "steps")
 		var c caseC14
 		live := 0
@@ -420,7 +440,7 @@ func TestC14(t *testing.T) {
 		var kinds []string
 		types := map[int]uint8{}
 		for i := 0; i < n; i++ {
-			k := rapid.IntRange(0, 13).Draw(t, "op")
+			k := rapid.IntRange(0, 14).Draw(t, "op")
 			if live == 0 && k > 3 {
 				k = rapid.IntRange(0, 3).Draw(t, "op0")
 			}
@@ -582,6 +602,16 @@ func TestC14(t *testing.T) {
 				if s.IsList {
 					op.Index = listLenOf(&m, s.Name) - 1
 				}
+			case k == 14:
+				op.Kind = "reuse"
+				op.Slot = rapid.IntRange(0, 5).Draw(t, "slot")
+				typ := types[op.Slot%live]
+				if typ < 1 || typ > 15 {
+					typ = model.PUBLISH
+				}
+				m := genSpecValid(t, typ)
+				op.Frame = ref.Canonical(&m)
+				nt = true
 			case k == 13:
 				op.Kind = "twin"
 				op.Slot = rapid.IntRange(0, 5).Draw(t, "slot")
